@@ -73,3 +73,6 @@ done
 echo "# systemstore.pem: placeholder bundle that SSL_CERT_FILE points at during checks (generated with: openssl req -x509 -newkey rsa:2048 -nodes -keyout /dev/null -subj /CN=placeholder -days 36500)"
 # added later with the kept ca.key (not by re-running the lines above): two leaves that are not valid *yet*
 #   leaf notyet ca "$GOOD_SAN" 21100101000000Z 21200101000000Z ; leaf notyet-wrongname ca "$WRONG_SAN" 21100101000000Z 21200101000000Z
+# added later with the kept ca.key: an intermediate CA (pathlen 0) and two leaves issued by it (viaint, viaint-wrongname;
+# their .pem files hold leaf + intermediate), a leaf whose extended key usage is clientAuth only (clientonly) and a leaf
+# without any subjectAltName, CN=secure.test (cnonly)
